@@ -114,6 +114,9 @@ class Unit:
         self.items = []
         self.rule_counts = {}
         self.includes = []
+        self.lemmas = []       # template-level proof fns registered with //@lemma
+        self.canaries = []     # generated `requires P ensures false` vacuity canaries (must fail)
+        self.clauses = []      # tagged contract clauses: dict(fn, tags, label, out_line)
 
     def emit(self, text, origin):
         for k, ln in enumerate(text.split("\n")):
@@ -200,6 +203,26 @@ def _process(unit, tpath, repo):
             unit.emit((vis + " " if vis != "none" else "") + text, {"kind": "src", "file": f, "line0": _line_of(src, start), "fn": None})
             i += 1
             continue
+        if s.startswith("//@canary_false"):
+            first = len(unit.out_lines) + 1
+            name = "canary_false_%d" % (len(unit.canaries) + 1)
+            unit.emit("proof fn %s() ensures false {}" % name, {"kind": "gen", "file": "<deliberately false: the verifier must report it>", "line": 0})
+            unit.canaries.append({"name": name, "for": "<verifier liveness>", "out_first": first, "out_last": len(unit.out_lines)})
+            i += 1
+            continue
+        if s.startswith("//@lemma"):
+            kv, rest = _parse_kv(s[len("//@lemma"):].split())
+            cur_lemma = {"unit": unit.name, "qual": "lemma:" + (rest[0] if rest else "L%d" % (i + 1)), "name": rest[0] if rest else "L%d" % (i + 1),
+                         "props": [p for p in kv.get("props", "").split(",") if p], "implicit": [], "out_first": len(unit.out_lines) + 1,
+                         "tmpl": rel, "tmpl_line": i + 1, "kind": "lemma"}
+            unit.lemmas.append(cur_lemma)
+            i += 1
+            continue
+        if s.startswith("//@endlemma"):
+            if unit.lemmas and "out_last" not in unit.lemmas[-1]:
+                unit.lemmas[-1]["out_last"] = len(unit.out_lines)
+            i += 1
+            continue
         if s.startswith("//@fn "):
             f, path, kv = _parse_target(s[len("//@fn "):])
             src = src_of(f)
@@ -247,6 +270,7 @@ def _process(unit, tpath, repo):
                 raise Inconclusive("template error %s: //@body without //@end" % rel)
             _emit_body(unit, cur_fn, dirs)
             cur_fn["out_last"] = len(unit.out_lines)
+            _emit_canary(unit, cur_fn)
             for k in ("_item", "_src", "_sigtext"):
                 cur_fn.pop(k, None)
             unit.fns.append(cur_fn)
@@ -344,13 +368,104 @@ def _emit_body(unit, fnrec, dirs):
     unit.emit(body, {"kind": "src", "file": fnrec["file"], "line0": _line_of(src, it.body_open), "fn": fnrec["qual"]})
 
 
+def _emit_canary(unit, fnrec):
+    """Vacuity guard: for a function with a `requires`, emit `proof fn canary(..) requires <same> ensures false {}`;
+    Verus must REFUTE it (an unsatisfiable precondition would make every obligation of the function vacuous)."""
+    sigtext = "\n".join(fnrec["_sigtext"])
+    m = re.search(r"\bfn\s+%s\b" % re.escape(fnrec["name"]), sigtext)
+    sub = sigtext[m.start():]
+    toks = tokenize(sub)
+    from rstok import skip_angle
+    k = 2
+    generics = ""
+    if toks[k].text == "<":
+        k2 = skip_angle(toks, k)
+        generics = sub[toks[k].start:toks[k2 - 1].end]
+        k = k2
+    c = match_close(toks, k)
+    params = sub[toks[k].end:toks[c].start]
+    # requires ... up to ensures/decreases/end (top level)
+    req_start = req_end = None
+    j = c + 1
+    while j < len(toks):
+        t = toks[j]
+        if t.text in ("(", "[", "{"):
+            j = match_close(toks, j)
+        elif t.kind == "id" and t.text == "requires" and req_start is None:
+            req_start = t.end
+        elif t.kind == "id" and t.text in ("ensures", "decreases", "returns", "opens_invariants", "no_unwind") and req_start is not None and req_end is None:
+            req_end = t.start
+        j += 1
+    if req_start is None:
+        return
+    req = sub[req_start:req_end if req_end is not None else len(sub)]
+    req = re.sub(r"/\*.*?\*/", " ", req, flags=re.S)
+    # parameters
+    ps = []
+    for prm in _split_params(params):
+        prm = prm.strip()
+        if not prm:
+            continue
+        if re.match(r"^&\s*mut\s+self$|^&\s*self$|^self$|^mut\s+self$", prm):
+            ps.append("self_: Self")
+            continue
+        nm, ty = prm.split(":", 1)
+        nm = nm.replace("mut ", "").strip()
+        ty = re.sub(r"^\s*&\s*mut\s+", "", ty)
+        ps.append("%s: %s" % (nm, ty.strip()))
+    req = re.sub(r"\bold\(\s*self\s*\)", "self_", req)
+    req = re.sub(r"\bold\(\s*(\w+)\s*\)", r"\1", req)
+    req = re.sub(r"\bself\b", "self_", req)
+    name = "canary_%s_%d" % (fnrec["name"], len(unit.canaries) + 1)
+    text = "proof fn %s%s(%s) requires %s ensures false {}" % (name, generics, ", ".join(ps), " ".join(req.split()).rstrip(", ") + ",")
+    first = len(unit.out_lines) + 1
+    unit.emit(text, {"kind": "gen", "file": "<canary for %s>" % fnrec["qual"], "line": 0})
+    unit.canaries.append({"name": name, "for": fnrec["qual"], "out_first": first, "out_last": len(unit.out_lines)})
+
+
+def _split_params(params):
+    toks = tokenize(params)
+    parts, last, i = [], 0, 0
+    from rstok import skip_angle
+    while i < len(toks):
+        t = toks[i]
+        if t.text in ("(", "[", "{"):
+            i = match_close(toks, i)
+        elif t.text == "<":
+            i = skip_angle(toks, i) - 1
+        elif t.text == ",":
+            parts.append(params[last:t.start])
+            last = t.end
+        i += 1
+    parts.append(params[last:])
+    return parts
+
+
+def collect_clauses(unit):
+    """Tagged contract clauses `/*@C01,C07 #label*/ ...` inside function / lemma regions."""
+    tag_re = re.compile(r"/\*@\s*([C0-9, ]+?)\s*(?:#(\w+))?\s*\*/")
+    regions = unit.fns + unit.lemmas
+    for idx, ln in enumerate(unit.out_lines):
+        for m in tag_re.finditer(ln):
+            line = idx + 1
+            fn = None
+            for f in regions:
+                if f["out_first"] <= line <= f.get("out_last", 0):
+                    fn = f
+                    break
+            unit.clauses.append({"fn": fn["qual"] if fn else None, "tags": [t.strip() for t in m.group(1).split(",") if t.strip()],
+                                 "label": m.group(2), "out_line": line})
+
+
 def write_unit(unit, outdir):
+    collect_clauses(unit)
     os.makedirs(outdir, exist_ok=True)
     p = os.path.join(outdir, unit.name + ".rs")
     with open(p, "w") as f:
         f.write("\n".join(unit.out_lines))
     with open(os.path.join(outdir, unit.name + ".map.json"), "w") as f:
-        json.dump({"map": unit.map, "fns": unit.fns, "items": unit.items, "rules": unit.rule_counts}, f)
+        json.dump({"map": unit.map, "fns": unit.fns, "items": unit.items, "rules": unit.rule_counts,
+                   "lemmas": unit.lemmas, "canaries": unit.canaries, "clauses": unit.clauses}, f)
     return p
 
 
